@@ -23,6 +23,9 @@ package storage
 //@   call[store.ShouldPut#0] assert options [C04]: ref(arg0) == ref(sc.idx) && arg1 == keyCid && arg2 == sc.opts.MaxIndexCidSize && arg3 == sc.opts.StoreIdentityCIDs && arg4 == sc.opts.BlockstoreAllowDuplicatePuts && arg5 == sc.opts.BlockstoreUseWholeCIDs
 //@   call[util.LdWrite#0] assert section [C01,C05]: ref(arg0) == ref(w) && len(arg1) == 2 && bytesval(arg1[0]) == cidbytes(keyCid) && ref(arg1[1]) == ref(data)
 //@   call[store.ShouldPut#0] assert decided_under_write_lock [C08]: held(sc.mu) == 2
+//@   let admit, aerr := call[store.ShouldPut#0]
+//@   call[util.LdWrite#0] assert only_admitted_blocks_are_written [C01,C04]: aerr == nil && admit
+//@   ensures rejected_block_not_written [C01,C04]: cerr == nil && !old(sc.closed) && typeis(sc.idx, "*v2/index.InsertionIndex") && old(sc.writer) != nil && (aerr != nil || !admit) ==> pend(sc) == old(pend(sc)) && nrec(sc.idx) == old(nrec(sc.idx)) && (sc.dataWriter != nil ==> wn(sc.dataWriter) == old(wn(sc.dataWriter)))
 //@   call[util.LdWrite#0] assert written_under_write_lock [C08]: held(sc.mu) == 2
 //@   call[InsertionIndex.InsertNoReplace#0] assert indexed_under_write_lock [C08]: held(sc.mu) == 2
 //@   call[util.LdWrite#0] assert writer_choice [C01,C05]: ite(sc.dataWriter != nil, ref(w) == ref(sc.dataWriter), ref(w) == ref(sc.writer))
@@ -75,6 +78,9 @@ package storage
 //@   ensures writable [C12,C16]: err == nil ==> result0.dataWriter != nil && objinv(result0.dataWriter) && typeis(result0.idx, "*v2/index.InsertionIndex")
 //@   ensures header_layout [C05]: err == nil ==> result0.header.DataOffset == wrap_u64(51 + result0.opts.DataPadding)
 //@   ensures payload_origin [C01,C05]: err == nil ==> wbase(result0.dataWriter) == ite(result0.opts.WriteAsCarV1, 0, wrap_s64(result0.header.DataOffset))
+//@   requires plain_file: !typeis(rw, "*v2/internal/io.offsetReadSeeker")
+//@   ensures reads_where_it_writes [C04,C07,C12]: err == nil && !result0.opts.WriteAsCarV1 ==> sbase(result0.reader) == wbase(result0.dataWriter)
+//@   ensures v1_reads_the_file_itself [C04,C07,C12]: err == nil && result0.opts.WriteAsCarV1 ==> ref(result0.reader) == ref(rw)
 
 // Readers of the storage front-end (C07, C08): the lookup is store.FindCid over the store's own reader, index and
 // options, under the read lock; identity CIDs are answered without a lookup only when they are not stored.
